@@ -196,6 +196,14 @@ def mccSum (sd : SD) (inclExternal : Bool) (ts : List TreeRec) : Option Nat := a
 /-- index of the maximum-product-of-support tree (`calculate_log_product_of_split_supports`) -/
 def mccProd (sd : SD) (inclExternal : Bool) (ts : List TreeRec) : Option Nat := argmaxFirst (ts.map (prodSupport sd inclExternal))
 
+/-- `TreeArray.restore_tree(index)`: `from_split_bitmasks` on the split masks stored for that tree, over the whole namespace, with the
+    array's rooting -/
+def restoreTree (all : Nat) (members : List Nat) (rooted : Bool) (t : TreeRec) : Hier.T :=
+  C01.build all members rooted (t.splits.map Int.toNat)
+/-- `maximum_product_of_split_support_tree` / `maximum_sum_of_split_support_tree` (topology): the maximiser restored -/
+def mccTree (idx : Option Nat) (all : Nat) (members : List Nat) (rooted : Bool) (ts : List TreeRec) : Option Hier.T :=
+  idx.bind (fun i => (ts[i]?).map (restoreTree all members rooted))
+
 /-! ### the frequency and summary caches of `SplitDistribution`
 
 `_split_freqs` is recalculated by `_get_split_frequencies` when it is `None` or `_trees_counted_for_freqs` differs from
